@@ -11,6 +11,7 @@ from enc import call, tres
 from props import corpus, disview, mutators, progen
 
 CO_NESTED, CO_NOFREE = 0x10, 0x40
+PAIR = "(fun k' => match from_const cfg k' with OK p => OK (k', p) | Err e => Err e end)"
 HEADER = ["co_argcount", "co_kwonlyargcount", "co_name", "co_filename", "co_firstlineno", "co_stacksize", "co_freevars"] + (
     ["co_posonlyargcount"] if sys.version_info >= (3, 8) else [])
 
@@ -101,6 +102,11 @@ def work(ctx):
             try:
                 ctx.case("ser_res ser_pycode (match to_code_data cfg %s with OK d => from_code_data cfg (normalize d) | Err e => Err e end)" % E.g_pycode(k),
                          tres(e, E.t_pycode), "normalize+encode %s" % what, "normalize-encode")
+                # premise / conclusion of the C05 theorem: the normal form of this decoded object is well-formed data
+                ctx.case("(let code := %s in match mapM (to_const cfg) (co_consts code) with OK ks => match decode_code cfg code ks with OK d => "
+                         "match mapM_cd PAIR (normalize d) with OK d' => ser_bool (view_wf cfg code ks) ++ ser_bool (data_wf cfg d') "
+                         "| Err _ => [2] end | Err _ => [3] end | Err _ => [4] end)".replace("PAIR", PAIR) % E.g_pycode(k),
+                         [1, 1], "view_wf and data_wf of the normal form of %s" % what, "wf-monitor")
                 ncases += 1
             except E.Unsupported:
                 pass
